@@ -6,6 +6,13 @@ A nested value is a tree whose inner nodes are the container types the code desc
 (exact `list`, exact `tuple`, namedtuple, exact `set`, exact `dict`, dataclass instance) and whose
 leaves are everything else (scalars, `frozenset`, subclasses of list/dict, expressions, files ...).
 
+Classification of a Python value (both functions use the same tests, in this order): exact `list`, exact `tuple`,
+namedtuple, exact `set`, exact `dict`, dataclass instance, else leaf.  `ntuple cls xs` is a NAMEDTUPLE in the sense
+of the predicate `isNamedtuple(v) := isinstance(v, tuple) and hasattr(v, "_fields")` — any instance of a tuple
+subclass whose type has `_fields`: classes made by `collections.namedtuple` / `typing.NamedTuple` AND their
+subclasses (with or without extra methods); not "a class whose direct base is `tuple`".  `cls` is the concrete
+class, which is what the rebuild calls (`value_type(*items)`).
+
 Conventions
 * `set xs`      — the elements in the set's iteration order.
 * `dict ks vs`  — keys and values in insertion order (`value.keys()`, `value.values()`); a value that
